@@ -3,6 +3,7 @@ use std::io::{BufRead, Write};
 use std::path::Path;
 
 pub mod tomlwire;
+pub mod tomllayout;
 
 /// splitmix64: every random choice of a run derives from `VERIF_SEED` and the case index.
 #[derive(Clone)]
